@@ -553,6 +553,51 @@ func (p *Program) BuildFrozen() {
 	}
 }
 
+// BuildFrozenFields: a field declared frozen-field is stored to only inside the function that allocates
+// the object (composite literal / new + initialisation); every other store in the module is a violation.
+func (p *Program) BuildFrozenFields() {
+	for _, ff := range p.Contracts.FrozenFields {
+		i2 := strings.LastIndex(ff, ".")
+		i1 := strings.LastIndex(ff[:i2], ".")
+		pkgSuffix, typeName, field := ff[:i1], ff[i1+1:i2], ff[i2+1:]
+		key := ""
+		for path, tp := range p.TypesPkgs {
+			if !inModule(path) || !strings.HasSuffix(path, pkgSuffix) {
+				continue
+			}
+			tn, ok := tp.Scope().Lookup(typeName).(*types.TypeName)
+			if !ok {
+				continue
+			}
+			st, ok := tn.Type().Underlying().(*types.Struct)
+			if !ok {
+				continue
+			}
+			for i := 0; i < st.NumFields(); i++ {
+				if st.Field(i).Name() == field {
+					key = p.Sorts.FieldKey(tn.Type(), i).Name
+				}
+			}
+		}
+		if key == "" {
+			p.FrozenErrors = append(p.FrozenErrors, "frozen-field "+ff+": no such field")
+			continue
+		}
+		var violators []string
+		for _, fn := range p.AllFuncs {
+			if s := p.Summ[fn]; s != nil && s.direct[key] {
+				violators = append(violators, FuncKey(fn))
+			}
+		}
+		sort.Strings(violators)
+		if len(violators) > 0 {
+			p.FrozenErrors = append(p.FrozenErrors, fmt.Sprintf("frozen-field %s: stored to after construction in: %s", ff, strings.Join(violators, "; ")))
+			continue
+		}
+		p.FrozenKeys[key] = nil
+	}
+}
+
 // frozenFor reports whether heap key k keeps its value across calls made by fn.
 func (p *Program) frozenFor(k string, fn *ssa.Function) bool {
 	exc, ok := p.FrozenKeys[k]
